@@ -338,6 +338,10 @@ class HttpParser:
                 self.headers[k][0]: self.headers[k][1] for k in self.headers
             },
             body=self._get_body_or_chunks(),
+            # A body-less response received without a Content-Length header is
+            # rebuilt without one.  For 1xx and 204 responses the header is not
+            # even allowed (RFC 7230 section 3.3.2).
+            no_cl=not self.body and not self.has_header(b'content-length'),
         )
 
     def _process_body(self, raw: memoryview) -> Tuple[bool, memoryview]:
